@@ -52,7 +52,10 @@ def gen_tree(rng, prefix, depth, fanout, budget, classes, sizes, stats=None, all
         else:
             size = rng.choice(sizes)
             seed = rng.randrange(6) if rng.random() < 0.3 else rng.randrange(1000)   # duplicates on purpose
-            out.append(("file", p, "g:%d:%d" % (seed, size)))
+            kind = "g"
+            if rng.random() < 0.08:
+                kind, size = "z", rng.choice([4096, 65536, 70000, 131072, 200000])     # zero-padded tail / all zeros
+            out.append(("file", p, "%s:%d:%d" % (kind, seed, size)))
             if stats is not None:
                 stats["files"] = stats.get("files", 0) + 1
                 stats["size_%d" % size] = stats.get("size_%d" % size, 0) + 1
@@ -123,6 +126,8 @@ def basic_project(rng, cid, tier, classes=None, stats=None, n_stages=None, allow
         stages.append((sp, dict(cmd=b"", wd=b".", out=outs, **({"in": ins} if ins else {}))))
     case = dict(id=cid, init=init, stages=stages, ops=[])
     case["cache"] = rng.choice(["rel", "rel", "abs", "shm"])
+    if rng.random() < 0.25:
+        case["oddpath"] = True          # ':' and blanks in the absolute path of the project / the cache
     if rng.random() < 0.3:
         case["cwd"] = b"workdir/inner"
         case["init"].append(("dir", b"workdir"))
